@@ -94,6 +94,62 @@ fn global_redeclared(rng: &mut Rng, st: &mut Stats) {
     std::env::remove_var(var);
 }
 
+type Expect = (Option<Src>, Vec<Vec<String>>, Option<bool>);
+
+/// every argument's reported source and values against the model
+fn compare_args(st: &mut Stats, c: &CmdSpec, cli: &[Cli], expect: &[Expect], m: &clap::ArgMatches, pfx: &str, ctx: &dyn Fn() -> String) {
+    for i in 0..c.args.len() {
+        let a = &c.args[i];
+        let id = a.id.as_str();
+        let src = crate::model::src_of(m.value_source(id));
+        let (esrc, eocc, eflag) = &expect[i];
+        if let Some(s) = esrc {
+            st.count(&format!("lattice.{:?}", s));
+        } else {
+            st.count("lattice.absent");
+        }
+        if src != *esrc {
+            st.violation(format!("{}:source:{:?}-reported-{:?}", pfx, esrc, src), format!("{} | {}", id, ctx()));
+            return;
+        }
+        if esrc.is_none() {
+            if m.try_contains_id(id).ok() != Some(false) {
+                st.violation(format!("{}:absent-but-contains", pfx), format!("{} | {}", id, ctx()));
+            }
+            continue;
+        }
+        if a.takes_values() {
+            let occ: Vec<Vec<String>> = m
+                .try_get_raw_occurrences(id)
+                .ok()
+                .flatten()
+                .map(|o| o.map(|v| v.map(|x| x.to_string_lossy().into_owned()).collect()).collect())
+                .unwrap_or_default();
+            // defaults with several values form one occurrence; compare flattened for Default/Env
+            let same = if *esrc == Some(Src::Cli) { &occ == eocc } else { occ.concat() == eocc.concat() };
+            if !same {
+                let which = match (esrc, matches!(&cli[i], Cli::Given(o) if o.iter().any(|t| t.is_empty()))) {
+                    (Some(Src::Cli), true) => "missing-value-default",
+                    (Some(Src::Cli), false) => "cli-values",
+                    (Some(Src::Env), _) => "env-values",
+                    _ => "default-values",
+                };
+                st.violation(format!("{}:values:{}", pfx, which), format!("{}: expected {:?} observed {:?} | {}", id, eocc, occ, ctx()));
+                return;
+            }
+            if matches!(&cli[i], Cli::Given(o) if o.iter().any(|t| t.is_empty())) {
+                st.count("lattice.default_missing_used");
+            }
+        } else {
+            let v = m.try_get_one::<bool>(id).ok().flatten().copied();
+            if v != *eflag {
+                st.violation(format!("{}:flag-value", pfx), format!("{}: expected {:?} observed {:?} | {}", id, eflag, v, ctx()));
+                return;
+            }
+        }
+    }
+}
+
 pub fn case(seed: u64, st: &mut Stats) {
     let mut rng = Rng::new(seed);
     if rng.chance(1, 6) {
@@ -449,55 +505,21 @@ pub fn case(seed: u64, st: &mut Stats) {
                         continue;
                     }
                 }
-                for i in 0..n {
-                    let a = &c.args[i];
-                    let id = a.id.as_str();
-                    let src = crate::model::src_of(m.value_source(id));
-                    let (esrc, eocc, eflag) = &expect[i];
-                    if let Some(s) = esrc {
-                        st.count(&format!("lattice.{:?}", s));
-                    } else {
-                        st.count("lattice.absent");
-                    }
-                    if src != *esrc {
-                        st.violation(format!("c06:source:{:?}-reported-{:?}", esrc, src), format!("{} | {}", id, ctx()));
-                        break;
-                    }
-                    if esrc.is_none() {
-                        if m.try_contains_id(id).ok() != Some(false) {
-                            st.violation("c06:absent-but-contains", format!("{} | {}", id, ctx()));
-                        }
-                        continue;
-                    }
-                    if a.takes_values() {
-                        let occ: Vec<Vec<String>> = m
-                            .try_get_raw_occurrences(id)
-                            .ok()
-                            .flatten()
-                            .map(|o| o.map(|v| v.map(|x| x.to_string_lossy().into_owned()).collect()).collect())
-                            .unwrap_or_default();
-                        // defaults with several values form one occurrence; compare flattened for Default/Env
-                        let same = if *esrc == Some(Src::Cli) { &occ == eocc } else { occ.concat() == eocc.concat() };
-                        if !same {
-                            let which = match (esrc, matches!(&cli[i], Cli::Given(o) if o.iter().any(|t| t.is_empty()))) {
-                                (Some(Src::Cli), true) => "missing-value-default",
-                                (Some(Src::Cli), false) => "cli-values",
-                                (Some(Src::Env), _) => "env-values",
-                                _ => "default-values",
-                            };
-                            st.violation(format!("c06:values:{}", which), format!("{}: expected {:?} observed {:?} | {}", id, eocc, occ, ctx()));
-                            break;
-                        }
-                        if matches!(&cli[i], Cli::Given(o) if o.iter().any(|t| t.is_empty())) {
-                            st.count("lattice.default_missing_used");
-                        }
-                    } else {
-                        let v = m.try_get_one::<bool>(id).ok().flatten().copied();
-                        if v != *eflag {
-                            st.violation("c06:flag-value", format!("{}: expected {:?} observed {:?} | {}", id, eflag, v, ctx()));
-                            break;
-                        }
-                    }
+                compare_args(st, &c, &cli, &expect, &m, "c06", &ctx);
+            }
+        }
+        // the same line with an unknown option at its end, errors ignored: everything before the
+        // error was read, the rest is filled in from environment and defaults in that order
+        if rng.chance(1, 3) {
+            let mut argv2 = argv.clone();
+            argv2.push("--bogusq9".into());
+            let ctx2 = || format!("ignore_errors argv={} env={:?} | spec={}", show_argv(&argv2), env, brief(&c));
+            match catch(|| cmd.clone().ignore_errors(true).try_get_matches_from(argv2.clone())) {
+                Err(p) => st.violation(format!("panic:parse@{}", p.loc), format!("{} | {}", p.msg, ctx2())),
+                Ok(Err(e)) => st.violation(format!("c06:after-ignored-error:rejected:{:?}", e.kind()), ctx2()),
+                Ok(Ok(m)) => {
+                    st.count("verdict.ok-after-ignored-error");
+                    compare_args(st, &c, &cli, &expect, &m, "c06:after-ignored-error", &ctx2);
                 }
             }
         }
